@@ -311,7 +311,15 @@ Fixpoint trim_start (s : list N) : list N :=
   | c :: r => if is_white_space c then trim_start r else s
   | [] => []
   end.
-Definition trim_end (s : list N) : list N := rev (trim_start (rev s)).
+(* linear (List.rev is quadratic): drop the maximal white-space suffix *)
+Fixpoint trim_end (s : list N) : list N :=
+  match s with
+  | [] => []
+  | c :: r => match trim_end r with
+              | [] => if is_white_space c then [] else [c]
+              | t => c :: t
+              end
+  end.
 Definition trim (s : list N) : list N := trim_end (trim_start s).
 
 Definition space0 : parser (list N) := take_while0 is_sp.
